@@ -10,15 +10,20 @@ let string_of_z z =
   (if neg then "-" else "") ^ String.concat "" (List.map (fun d -> string_of_int (int_of_n d)) ds)
 let name_of_string s = List.init (String.length s) (fun i -> n_of_int (Char.code s.[i]))
 let hex8 n = Printf.sprintf "%08x" (int_of_n n)
+(* checksum used only to report file contents compactly (native code, not part of the model) *)
+let crc_tab = Array.init 256 (fun i -> let c = ref i in for _ = 1 to 8 do c := if !c land 1 = 1 then (!c lsr 1) lxor 0xEDB88320 else !c lsr 1 done; !c)
+let native_crc (l : n list) =
+  let c = List.fold_left (fun c b -> (c lsr 8) lxor crc_tab.((c lxor int_of_n b) land 0xff)) 0xFFFFFFFF l in
+  Printf.sprintf "%08x" (c lxor 0xFFFFFFFF)
 let n_of_string s = (* decimal, < 2^62 *) n_of_int (int_of_string s)
 let summary names d =
   let parts = List.concat (List.mapi (fun i nm ->
     match lookup nm d with
     | None -> []
-    | Some f -> [Printf.sprintf "%d=%d.%s" i (List.length f) (hex8 (crc32 f))]) names) in
+    | Some f -> [Printf.sprintf "%d=%d.%s" i (List.length f) (native_crc f)]) names) in
   "{" ^ String.concat "," parts ^ "}"
 let writes_str t d =
-  String.concat "," (List.map (fun (off, bs) -> Printf.sprintf "%d+%d+%s" (int_of_n off) (List.length bs) (hex8 (crc32 bs))) (save_writes t d))
+  String.concat "," (List.map (fun (off, bs) -> Printf.sprintf "%d+%d+%s" (int_of_n off) (List.length bs) (native_crc bs)) (save_writes t d))
 let () = main_loop (fun toks ->
   match toks with
   | fl :: nm :: ops when String.length fl = 2 && fl.[0] = 'F' && String.length nm >= 2 && String.sub nm 0 2 = "N=" ->
